@@ -1547,6 +1547,38 @@ private:
 #endif
   }
 
+  // Restore the bounds once the relations of a meet have been closed:
+  // propagate every bound through the relations, tighten, and check
+  // that no variable ends up with an empty interval.
+  // Return false (and set to bottom) iff the meet is empty.
+  bool close_bounds_after_meet() {
+    wt_ref_t w;
+    for (vert_id v : m_graph.verts()) {
+      if (v % 2 != 0)
+        continue;
+      if (m_graph.lookup(v, v + 1, w)) {
+        Wt lb = w.get();
+        if (!update_bounds_lb(v, lb))
+          return false;
+      }
+      if (m_graph.lookup(v + 1, v, w)) {
+        Wt ub = w.get();
+        if (!update_bounds_ub(v, ub))
+          return false;
+      }
+    }
+    integer_tightening();
+    for (vert_id v : m_graph.verts()) {
+      wt_ref_t w_lb, w_ub;
+      if (v % 2 == 0 && m_graph.lookup(v, v + 1, w_lb) &&
+          m_graph.lookup(v + 1, v, w_ub) && w_lb.get() + w_ub.get() < Wt(0)) {
+        set_to_bottom();
+        return false;
+      }
+    }
+    return true;
+  }
+
   void close_over_edge(vert_id ii, vert_id jj) {
     assert(ii / 2 != jj / 2);
 
@@ -2691,6 +2723,7 @@ public:
 	  split_oct_domain_t res(std::move(meet_verts), std::move(meet_rev),
 				 std::move(meet_g), std::move(meet_pi),
 				 vert_set_t());
+	  res.close_bounds_after_meet();
 	  
 	  CRAB_LOG("octagon", crab::outs() << "Result meet:\n" << res << "\n");
 	  return res;
@@ -2816,6 +2849,7 @@ public:
 	left.m_potential = std::move(meet_pi);
 	left.m_unstable.clear();
 	left.m_is_bottom = false;
+	left.close_bounds_after_meet();
 	
 	CRAB_LOG("octagon", crab::outs() << "Result meet:\n" << left << "\n");
       };
